@@ -13,6 +13,9 @@
  * Output per case:
  *   MODEL <the same line>
  *   IMPL  <E<addr> | X ...> | <count_in> <count_out> <libcall_count> | <addr>:<T|P>:<name> ...
+ *   (IMPL CRASH signal=<n> | exit=<n> when the code under test did not survive the case)
+ * Every case runs in a forked child of the initialised interpreter: a fresh process as far as
+ * the file's static state is concerned.
  *
  * Names: a python function named "m.f" lives in module "m" (f_globals.__name__)
  * with qualname "f"; a name without a dot lives in __main__.  Functions listed
@@ -25,6 +28,7 @@
 #include <stdio.h>
 #include <stdlib.h>
 #include <string.h>
+#include <sys/wait.h>
 
 #define MAIN_DIR "/uv/main"
 #define MAXOUT (1 << 16)
@@ -167,6 +171,173 @@ static int in_list(const char *list, const char *name)
 	return 0;
 }
 
+/* the state of a process in which the module has just been initialised with this environment */
+static void fresh_state(const char *filt, const char *ptype, const char *mode)
+{
+	/* ---- fresh "process": tear down the previous case's state ---- */
+	remove_filters();
+	if (symtab) {
+		munmap(symtab, uftrace_symtab_size);
+		close(uftrace_shmem_fd);
+		uftrace_shmem_unlink(uftrace_shmem_name);
+		symtab = NULL;
+	}
+	if (dbg_info) {
+		munmap(dbg_info, uftrace_dbginfo_size);
+		close(uftrace_shmem_dbg_fd);
+		uftrace_shmem_unlink(uftrace_shmem_dbg_name);
+		dbg_info = NULL;
+	}
+	free(main_file);
+	free(main_dir);
+	main_file = main_dir = NULL;
+	free_code_tree();
+	memset(&filter_state, 0, sizeof(filter_state));
+	libcall_count = 0;
+	libcall_mode = UFT_PY_LIBCALL_SINGLE; /* the static initialiser */
+
+	/* ---- environment as cmds/record.c sets it up ---- */
+	if (!strcmp(filt, "-"))
+		unsetenv("UFTRACE_FILTER");
+	else
+		setenv("UFTRACE_FILTER", filt, 1);
+	setenv("UFTRACE_PATTERN", ptype, 1);
+	if (!strcmp(mode, "SINGLE"))
+		unsetenv("UFTRACE_PY_LIBCALL");
+	else
+		setenv("UFTRACE_PY_LIBCALL", mode, 1);
+
+	init_uftrace(); /* real: libcall mode, symtab, init_filters() */
+}
+
+/* ---- "code" cases: convert_function_addr() over a history of code objects ------------------
+ *   code <lib names|-> | n:<k>=<name>  d:<k>  e:<k> ...
+ * n: make frame object k with a new code object of function <name>; d: drop frame k (its code object
+ * dies with it, the allocator may hand both blocks out again); e: a `call` event on frame k.
+ *   MODEL code <libs> | a:<id>=<name> f:<id> e:<id> ...   (id = the code object's address, numbered in
+ *                                                          order of first appearance: reuse shows)
+ *   IMPL  <name>:<symbol address> ...                     (one per e:, what convert_function_addr returned)
+ */
+#define MAXSLOT 256
+static PyObject *slot_frame[MAXSLOT];
+static void *seen_ptr[4096];
+static int n_seen;
+
+static int ptr_id(void *p)
+{
+	int i;
+
+	for (i = 0; i < n_seen; i++) {
+		if (seen_ptr[i] == p)
+			return i;
+	}
+	if (n_seen < 4096)
+		seen_ptr[n_seen++] = p;
+	return n_seen - 1;
+}
+
+static PyObject *new_frame_for(const char *name, int is_lib)
+{
+	char file[600], mod[256];
+	PyObject *f, *code, *glob, *m;
+	const char *dot = strchr(name, '.');
+	const char *qual;
+
+	if (dot) {
+		snprintf(mod, sizeof(mod), "%.*s", (int)(dot - name), name);
+		qual = dot + 1;
+	}
+	else {
+		strcpy(mod, "__main__");
+		qual = name;
+	}
+	if (is_lib)
+		snprintf(file, sizeof(file), "<string>");
+	else
+		snprintf(file, sizeof(file), MAIN_DIR "/%s.py", dot ? mod : "main");
+	f = make_ns();
+	code = make_ns();
+	set_attr(code, "co_qualname", PyUnicode_FromString(qual));
+	set_attr(code, "co_name", PyUnicode_FromString(qual));
+	set_attr(code, "co_filename", PyUnicode_FromString(file));
+	set_attr(code, "co_firstlineno", PyLong_FromLong(1));
+	glob = PyDict_New();
+	m = PyUnicode_FromString(mod);
+	PyDict_SetItemString(glob, "__name__", m);
+	Py_DECREF(m);
+	set_attr(f, "f_code", code);
+	set_attr(f, "f_globals", glob);
+	return f;
+}
+
+static void run_code_case(char *line)
+{
+	char *save = NULL, *tok, *copy = strdup(line);
+	char *libs;
+	static char mbuf[MAXOUT], ibuf[MAXOUT];
+	int ml = 0, il = 0;
+
+	strtok_r(copy, " ", &save); /* "code" */
+	libs = strtok_r(NULL, " ", &save);
+	tok = strtok_r(NULL, " ", &save);
+	if (!libs || !tok || strcmp(tok, "|"))
+		_exit(2);
+	fresh_state("-", "regex", "SINGLE");
+	while ((tok = strtok_r(NULL, " ", &save)) != NULL) {
+		int k = atoi(tok + 2);
+
+		if (tok[1] != ':' || k < 0 || k >= MAXSLOT)
+			_exit(2);
+		if (tok[0] == 'n') {
+			const char *name = strchr(tok, '=');
+			PyObject *code;
+
+			if (!name || slot_frame[k])
+				_exit(2);
+			name++;
+			slot_frame[k] = new_frame_for(name, in_list(libs, name));
+			code = PyObject_GetAttrString(slot_frame[k], "f_code");
+			ml += snprintf(mbuf + ml, MAXOUT - ml, " a:%d=%s", ptr_id(code), name);
+			Py_DECREF(code);
+		}
+		else if (tok[0] == 'd') {
+			PyObject *code;
+
+			if (!slot_frame[k])
+				_exit(2);
+			code = PyObject_GetAttrString(slot_frame[k], "f_code");
+			ml += snprintf(mbuf + ml, MAXOUT - ml, " f:%d", ptr_id(code));
+			Py_DECREF(code);
+			Py_CLEAR(slot_frame[k]);
+		}
+		else if (tok[0] == 'e') {
+			PyObject *code;
+			struct uftrace_python_symbol *sym;
+
+			if (!slot_frame[k])
+				_exit(2);
+			code = PyObject_GetAttrString(slot_frame[k], "f_code");
+			ml += snprintf(mbuf + ml, MAXOUT - ml, " e:%d", ptr_id(code));
+			Py_DECREF(code);
+			sym = convert_function_addr(slot_frame[k], Py_None, true);
+			if (sym)
+				il += snprintf(ibuf + il, MAXOUT - il, " %s:%u", sym->name, (unsigned)sym->addr);
+			else
+				il += snprintf(ibuf + il, MAXOUT - il, " -");
+		}
+		else
+			_exit(2);
+	}
+	printf("MODEL code %s |%s\n", libs, mbuf);
+	printf("IMPL%s\n", ibuf);
+	fflush(stdout);
+	if (symtab)
+		uftrace_shmem_unlink(uftrace_shmem_name);
+	if (dbg_info)
+		uftrace_shmem_unlink(uftrace_shmem_dbg_name);
+	_exit(0);
+}
+
 int main(void)
 {
 	char *line = NULL;
@@ -216,10 +387,45 @@ int main(void)
 		char *fixed, *mode, *ptype, *filt, *libs;
 		union uftrace_python_symtab *st;
 		char *p, *end;
+		pid_t pid;
+		int status = 0;
 
 		line[strcspn(line, "\n")] = 0;
 		if (!*line || *line == '#')
 			continue;
+
+		/*
+		 * One process per case: the child starts from the state the module is in right after
+		 * its initialisation (whatever static state the file has, known to this harness or
+		 * not), so a case can neither see nor damage what another case left behind.
+		 */
+		fflush(stdout);
+		pid = fork();
+		if (pid < 0) {
+			perror("fork");
+			return 2;
+		}
+		if (pid > 0) {
+			char shm[64];
+
+			while (waitpid(pid, &status, 0) < 0 && errno == EINTR)
+				;
+			if (WIFEXITED(status) && WEXITSTATUS(status) == 0)
+				continue;
+			/* the real code crashed (or gave up) on this case: say so, clean up after it */
+			printf("MODEL %s\n", line);
+			if (WIFSIGNALED(status))
+				printf("IMPL CRASH signal=%d\n", WTERMSIG(status));
+			else
+				printf("IMPL CRASH exit=%d\n", WEXITSTATUS(status));
+			snprintf(shm, sizeof(shm), "/uftrace-python-%d", (int)pid);
+			uftrace_shmem_unlink(shm);
+			snprintf(shm, sizeof(shm), "/uftrace-python-dbg-%d", (int)pid);
+			uftrace_shmem_unlink(shm);
+			continue;
+		}
+		if (!strncmp(line, "code ", 5))
+			run_code_case(line); /* does not return */
 		copy = strdup(line);
 		fixed = strtok_r(copy, " ", &save);
 		mode = strtok_r(NULL, " ", &save);
@@ -229,43 +435,10 @@ int main(void)
 		tok = strtok_r(NULL, " ", &save);
 		if (!fixed || !mode || !ptype || !filt || !libs || !tok || strcmp(tok, "|")) {
 			fprintf(stderr, "bad case line: %s\n", line);
-			return 2;
+			_exit(2);
 		}
 
-		/* ---- fresh "process": tear down the previous case's state ---- */
-		remove_filters();
-		if (symtab) {
-			munmap(symtab, uftrace_symtab_size);
-			close(uftrace_shmem_fd);
-			uftrace_shmem_unlink(uftrace_shmem_name);
-			symtab = NULL;
-		}
-		if (dbg_info) {
-			munmap(dbg_info, uftrace_dbginfo_size);
-			close(uftrace_shmem_dbg_fd);
-			uftrace_shmem_unlink(uftrace_shmem_dbg_name);
-			dbg_info = NULL;
-		}
-		free(main_file);
-		free(main_dir);
-		main_file = main_dir = NULL;
-		free_code_tree();
-		memset(&filter_state, 0, sizeof(filter_state));
-		libcall_count = 0;
-		libcall_mode = UFT_PY_LIBCALL_SINGLE; /* the static initialiser */
-
-		/* ---- environment as cmds/record.c sets it up ---- */
-		if (!strcmp(filt, "-"))
-			unsetenv("UFTRACE_FILTER");
-		else
-			setenv("UFTRACE_FILTER", filt, 1);
-		setenv("UFTRACE_PATTERN", ptype, 1);
-		if (!strcmp(mode, "SINGLE"))
-			unsetenv("UFTRACE_PY_LIBCALL");
-		else
-			setenv("UFTRACE_PY_LIBCALL", mode, 1);
-
-		init_uftrace(); /* real: libcall mode, symtab, init_filters() */
+		fresh_state(filt, ptype, mode);
 		cygprof_enter = h_enter;
 		cygprof_exit = h_exit;
 		outlen = 0;
@@ -279,7 +452,7 @@ int main(void)
 
 			if (tok[1] != ':' || !*name) {
 				fprintf(stderr, "bad event %s\n", tok);
-				return 2;
+				_exit(2);
 			}
 			switch (tok[0]) {
 			case 'c': ev = "call"; break;
@@ -290,7 +463,7 @@ int main(void)
 			case 'o': ev = "exception"; break;
 			default:
 				fprintf(stderr, "bad event %s\n", tok);
-				return 2;
+				_exit(2);
 			}
 			if (tok[0] == 'c' || tok[0] == 'r') {
 				frame = get_py_frame(name, is_lib);
@@ -306,7 +479,7 @@ int main(void)
 			if (r == NULL) {
 				PyErr_Print();
 				fprintf(stderr, "trace function raised\n");
-				return 2;
+				_exit(2);
 			}
 			Py_DECREF(r);
 			Py_DECREF(args);
@@ -330,7 +503,12 @@ int main(void)
 			p = nl + 1;
 		}
 		printf("\n");
-		free(copy);
+		fflush(stdout);
+		if (symtab)
+			uftrace_shmem_unlink(uftrace_shmem_name);
+		if (dbg_info)
+			uftrace_shmem_unlink(uftrace_shmem_dbg_name);
+		_exit(0);
 	}
 	fflush(stdout);
 	/* skip the file's destructor (it would write python.sym into the cwd) */
